@@ -9,6 +9,7 @@ import (
 	"fmt"
 	"net"
 	"strings"
+	"sync"
 	"time"
 
 	"github.com/fiorix/go-diameter/v4/diam"
@@ -211,7 +212,12 @@ func (cli *Client) handshake(c diam.Conn) (diam.Conn, error) {
 	cli.Handler.mux.HandleFunc("CER", cerClientHandler)
 	// Handle CEA and DWA.
 	errc := make(chan error)
-	cli.Handler.mux.Handle("CEA", handleCEA(cli.Handler, errc))
+	// errc is closed by whoever gets there first: handleCEA after a success
+	// CEA, or this function after a failing one. A success CEA pipelined
+	// right behind a failing one may be handled in between.
+	var closeOnce sync.Once
+	closeErrc := func() { closeOnce.Do(func() { close(errc) }) }
+	cli.Handler.mux.Handle("CEA", handleCEA(cli.Handler, errc, closeErrc))
 
 	var dwac chan struct{}
 	if cli.EnableWatchdog {
@@ -232,7 +238,7 @@ func (cli *Client) handshake(c diam.Conn) (diam.Conn, error) {
 		case err, ok := <-errc: // Wait for CEA.
 			if ok && err != nil {
 				vevent("hs.fail", c)
-				close(errc)
+				closeErrc()
 				c.Close()
 				return nil, err
 			}
